@@ -83,20 +83,27 @@ theorem gr_negotiation_symmetric (l r : List Cap) :
   gr_symmetric l r
 
 
-/-- LLGR: without a family listed twice both ends put the same families into force (with a
-    duplicate they may not: open finding F16d, witness below) -/
-theorem llgr_negotiation_symmetric (l r : List Cap) (hl : Spec.llgrDup l = false) (hr : Spec.llgrDup r = false) (f : Family) :
+/-- **llgr_symmetric_full.**  Both ends put the same LLGR families into force, whatever the two
+    capability lists look like (duplicates included: a family listed twice counts by its first
+    tuple on either side — the F16d repair of `negotiate_llgr`). -/
+theorem llgr_symmetric_full (l r : List Cap) (f : Family) :
     f ∈ Spec.llgrFams (negotiateLlgr l r) ↔ f ∈ Spec.llgrFams (negotiateLlgr r l) :=
-  ⟨llgr_sym_of_nodup l r hl hr f, llgr_sym_of_nodup r l hr hl f⟩
+  ⟨llgr_sym l r f, llgr_sym r l f⟩
 
-def llgr_symmetric_full : Prop :=
-  ∀ (l r : List Cap) (f : Family), f ∈ Spec.llgrFams (negotiateLlgr l r) ↔ f ∈ Spec.llgrFams (negotiateLlgr r l)
+/-- the former F16d witness -/
+example : negotiateLlgr [.llgr [(65537, 0, 0), (65537, 0, 5)]] [.llgr [(65537, 0, 0)]] = none ∧
+    negotiateLlgr [.llgr [(65537, 0, 0)]] [.llgr [(65537, 0, 0), (65537, 0, 5)]] = none := by decide
+example : negotiateLlgr [.llgr [(65537, 0, 0), (131073, 0, 5)]] [.llgr [(131073, 0, 0), (65537, 0, 7)]] =
+    some [(65537, 7), (131073, 5)] := by decide
 
-/-- F16d: one end has LLGR in force for the family, the other has not -/
-theorem llgr_symmetric_full_fails : ¬ llgr_symmetric_full := by
-  intro h
-  have := (h [.llgr [(65537, 0, 0), (65537, 0, 5)]] [.llgr [(65537, 0, 0)]] 65537).mp (by decide)
-  revert this; decide
+/-- what is in force: the family is listed by both sides and one of the two first-listed stale
+    times is non-zero -/
+theorem llgr_in_force_iff (l r : List Cap) (f : Family) :
+    f ∈ Spec.llgrFams (negotiateLlgr l r) ↔
+      ∃ lf pf, firstLlgr l = some lf ∧ firstLlgr r = some pf ∧
+        ∃ e p, lf.find? (fun x => x.1 = f) = some e ∧ pf.find? (fun x => x.1 = f) = some p ∧
+          (if p.2.2 > 0 then p.2.2 else e.2.2) ≠ 0 :=
+  mem_llgrFams l r f
 
 /-! ## configured or inherited parameters, role -/
 
@@ -312,18 +319,13 @@ def CaseWF : Case → Prop
 
 /-- **check_run_ok.**  The C16 reference checker accepts every observation the model produces —
     for every pair of capability lists, every prefix / address, every configuration and every
-    history — with exactly two exceptions, both recorded as open findings on the real code:
-    a connection accepted while a closing connection of the same direction still exists (F16c) and
-    LLGR with a family listed twice (F16d). -/
+    history — with exactly one exception, recorded as an open finding on the real code: a
+    connection accepted while a closing connection of the same direction still exists (F16c). -/
 theorem check_run_ok (c : Case) (hwf : CaseWF c) :
     Spec.check c (run c) = .ok ∨
-    (∃ k, Spec.check c (run c) = .fail k "accepted-while-closing-connection-same-direction") ∨
-    Spec.check c (run c) = .fail 0 "llgr-not-symmetric-duplicate-entries" := by
+    (∃ k, Spec.check c (run c) = .fail k "accepted-while-closing-connection-same-direction") := by
   cases c with
-  | neg l r sm =>
-    rcases checkNeg_model l r sm with h | h
-    · exact Or.inl h
-    · exact Or.inr (Or.inr h)
+  | neg l r sm => exact Or.inl (checkNeg_model l r sm)
   | contains n a =>
     left
     simp only [run, Spec.check]
@@ -340,7 +342,7 @@ theorem check_run_ok (c : Case) (hwf : CaseWF c) :
     simp only [run, hr, Spec.check]
     rcases checkHist_model g groups peers ops hwf h hr with hk | hk
     · exact Or.inl hk
-    · exact Or.inr (Or.inl hk)
+    · exact Or.inr hk
 
 /-- the drivers run the model and the oracle only on cases passing the run-time guard
     `Codec.wfCase`, and the guard implies the hypothesis of `check_run_ok` -/
